@@ -123,6 +123,65 @@ CLAIMS = {
              "phase = max(0, non-skipped input phases), Connection.phase = sender phase_output + delay, phase_output = phase + delay, infos read "
              "the properties; the algebraic-loop handler re-raises on every path. Not decided: whether a changed delay reaches an already warmed-up async graph.",
         ref="§5 C16"),
+    "C10": dict(
+        technique="integer/max-plus normal forms of the window arithmetic, must-pass-through of the saturating clip, provenance of the generation-time delay, ordering-abstraction table of the arrival predicate, writer/reader table agreement of interp modes",
+        text="The behavioural equivalence trainable(d) == static(d) is NOT decided. Decided: the window extension is W = int(ceil(sender rate * (max - min))), "
+             "apply_window allocates window + W entries and apply_delay returns exactly `window` of them in every interp mode, both with the sender's rate; "
+             "alpha is only set through clip((d - min)/(max - min), 0, 1) or the asserting constructor, init delays are looked up under the input's own name; "
+             "graphs are generated with Deterministic(min) for trainable connections and a trainable computation delay is rejected; the delay is applied once "
+             "per input and step with the carried distribution; the arrival predicate is m <= start (the static non-skip rule) — on a skipped connection the tie "
+             "is treated differently from the static case (known finding F1); the interp strings accepted by create are exactly those handled. "
+             "Not decided: interpolated values, gradients.",
+        ref="§5 C10"),
+    "C12": dict(
+        technique="max-plus normal forms of the timestamp scan, ordering-abstraction tables of the assignment tie rule and horizon masks, key-membership guards of augment, exhaustiveness of the unsupported-setting rejections",
+        text="Acyclicity and the sampled distributions are not decided. Decided: ts_start(0) = phase, ts_end = ts_start + sampled delay, ts_start(k+1) = "
+             "max(ts_end, ts_start + 1/rate), rng split linearly, seq = -1 iff ts_end > horizon; a receiver step is accepted for a message iff start >= arrival "
+             "(> if skipped), identically in the search loop and the final test, unassigned -> -1; messages of vertices beyond the horizon / never sent carry -1, "
+             "ts_recv = sender ts_end + sampled delay; augment generates a vertex set / edge exactly when its key is missing and stores it under that key; "
+             "advance, PHASE, blocking and BUFFER raise before anything is generated.",
+        ref="§5 C12"),
+    "C15": dict(
+        technique="sanitiser must-pass-through (clip at 0), PRNG-key linearity, effect analysis, closed-form normal forms of quantiles, provenance of the default expected delay and of the estimator's exported distribution",
+        text="Decides: every static sample passes clip(., 0, None), a trainable delay is min + alpha (max - min) with asserted 0 <= min < max and clipped alpha; "
+             "sample splits the stored key once, keeps one half and feeds the other to exactly one sampler, reset stores the given key; sample / reset / quantile "
+             "/ mean / pdf have no outside effect; Deterministic.quantile = mean, Normal.quantile = ndtri(q) scale + loc, trainable = min + alpha (max - min), "
+             "mixtures delegate to the grid routine on their own distribution, unknown distributions raise; default expected delay = quantile(0.99), asserted "
+             "non-negative; zero-spread data is exported as Deterministic(mean), otherwise a mixture with normalised weights and rescaled components. "
+             "Not decided: the mixture grid quantile's accuracy, fitted values.",
+        ref="§5 C15"),
+    "C17": dict(
+        technique="rational-function normal forms (round-trip identities as polynomial identities), fold-order comparison, declared inverse pairs, leafwise fill rule",
+        text="Decides: Denormalize uses offset (min+max)/2 and scale (max-min)/2 and normalize(denormalize(x)) == x, denormalize(normalize(y)) == y hold as identities "
+             "of rational normal forms, -1 -> min, +1 -> max; Chain.apply folds first-to-last and Chain.inv folds inv over the reversed members; Exponential maps "
+             "through exp / log; Identity returns its argument; Shared writes replace_fn / inverse_fn of the params at `where`; Extend takes the base leaf exactly "
+             "where the supplied leaf is None. Not decided: pytree surgery of equinox, user lambdas, float rounding.",
+        ref="§5 C17"),
+    "C18": dict(
+        technique="sanitiser must-pass-through (NaN -> inf) on every use of the raw losses, clip must-pass-through with role check, ordering-abstraction table of the best-so-far update",
+        text="Decides: in the CEM update raw losses are only used inside where(isnan(l), inf, l), the evolutionary step tells the strategy the sanitised fitness of the "
+             "asked population; every CEM sample is clip(mean + stdev * noise, u_min, u_max) and the strategy gets clip_min/max = flattened u_min/u_max; the best "
+             "index is the first of an ascending argsort of the sanitised losses, the stored loss is min(old, new) in every ordering case, candidate and loss are "
+             "selected by the same predicate, the initial best loss is +inf. Not decided: evosax internals, elite statistics.",
+        ref="§5 C18"),
+    "C19": dict(
+        technique="provenance dataflow of Environment.step and the auto-reset pass-through, closed-form normal forms of the episode log for done in {0,1}, rational normal forms of squash/unsquash (declared pair tanh/arctanh), agreement of the three running-moment clones with Chan's formula",
+        text="Decides: action -> get_output -> graph.step with the supervisor's pre-step state, reward / flags from the stepped state, observation / info from the "
+             "post-step state; auto-reset passes reward and flags through and swaps state / observation / info iff terminated or truncated; the log wrapper's "
+             "closed form for done in {0,1}; unsquash(scale(x)) == x and scale(unsquash(y)) == y, range [low, high], clip otherwise; the three batch-moment "
+             "updates equal Chan's parallel formula with jnp.mean / jnp.var over axis 0 and count = number of environments, normalisation uses the updated "
+             "state, the return estimate uses gamma (1 - done). Not decided: numerical equality with batch statistics.",
+        ref="§5 C19"),
+    "C20": dict(
+        technique="table agreement of the activation maps, structural comparison of the manual forward pass with the flax module (layer indexes, activation placement, Gaussian head), flag agreement of normalisation call sites, provenance of the exported configuration",
+        text="Numerical equality of nn.Dense(...).apply with the bound module is not decided. Decided: the Actor's activation chain and the Policy's table map the same "
+             "four keys to the same flax functions; the Policy applies Dense_i + activation for i < n-1 from the normalised observation and Dense_{n-1} without "
+             "activation, parameters from model['actor']; std = exp(log_std) in both, the rng-less action is the mean; get_action = normalize(clip=True, "
+             "subtract_mean=True) -> apply_actor(rng) -> unsquash with the flags of the training wrapper and the evaluation loop; the exported policy takes "
+             "hidden_activation / state_independent_std from the config fields given to the Actor, 'gaussian' is the Actor's un-overridden default, model = "
+             "params['params'], scalings from the aux keys the wrappers write, wrapper stack order. STATE_INDEPENDENT_STD=False is not a trainable "
+             "configuration (DESIGN.md §7) and is out of scope.",
+        ref="§5 C20"),
 }
 
 NOT_APPLICABLE = {
